@@ -865,12 +865,12 @@ func main() {
 	for _, form := range []string{"import", "import_as", "from", "from_as", "star", "from_missing", "frommod", "frommod_as"} {
 		for _, tc := range []string{"first", "loaded", "loading", "missing"} {
 			if cnt.classes["stmt "+form+" "+tc] == 0 {
-				common.Inconclusive("property=C19 vacuous run: no %s statement met a %s target", form, tc)
+				common.Vacuous("property=C19 vacuous run: no %s statement met a %s target", form, tc)
 			}
 		}
 	}
 	if os.Getenv("VERIF_C19_DEV") == "" && (cnt.classes["stmt addpath -"] == 0 || cnt.classes["stmt import unavailable"] == 0 || cnt.classes["body run late"] == 0) {
-		common.Inconclusive("property=C19 vacuous run: no module became available late")
+		common.Vacuous("property=C19 vacuous run: no module became available late")
 	}
 	raised := 0
 	for c, n := range cnt.classes {
@@ -879,7 +879,7 @@ func main() {
 		}
 	}
 	if cnt.classes["body run src"] == 0 || cnt.classes["body run gosrc"] == 0 || raised == 0 || cnt.contexts2 == 0 {
-		common.Inconclusive("property=C19 vacuous run: no source module, no Go module with source, no raising body or no second context was exercised")
+		common.Vacuous("property=C19 vacuous run: no source module, no Go module with source, no raising body or no second context was exercised")
 	}
 	if cnt.notRepro > 0 {
 		common.Inconclusive("property=C19 %d diverging cases did not diverge again in a fresh context", cnt.notRepro)
